@@ -53,11 +53,7 @@ Theorem c20_seq_check_sound :
   forall buffered size ops obs fin,
     seq_property buffered size ops obs fin = true ->
     windows_ok buffered size ops obs.
-Proof.
-  intros buffered size ops obs fin H. unfold seq_property in H.
-  apply andb_true_iff in H. destruct H as [H _]. apply andb_true_iff in H. destruct H as [H1 H2].
-  exact (win_check_sound buffered size ops obs H1 H2).
-Qed.
+Proof. exact seq_property_sound. Qed.
 Print Assumptions c20_seq_check_sound.
 
 Theorem c20_sub_check_sound :
